@@ -23,8 +23,9 @@ SYMS = [(f, a, s) for f in "FCLU" for a in (0, 1) for s in (1, 2)]  # 16 symbols
 APIDS = (0x0A1, 0x2B2)
 
 
-def build_history(hist, base, k):
-    """-> (stream bytes, [packet bytes], [(flag, apid_index, count, tag)])"""
+def build_history(hist, base, k, vary=False):
+    """-> (stream bytes, [packet bytes], [(flag, apid_index, count, tag)]).  With vary=True the header bits that do not take part in
+    reassembly (version, type, secondary-header flag) differ from packet to packet."""
     counts = {0: (base - 1) % 16384, 1: (base + 5 - 1) % 16384}
     pkts, meta = [], []
     for i, si in enumerate(hist):
@@ -32,7 +33,11 @@ def build_history(hist, base, k):
         counts[a] = (counts[a] + step) % 16384
         tag = 0x10 + i
         data = bytes([0xE0 + j for j in range(k)]) + bytes([tag, tag ^ 0xFF])
-        p = framing.mk_packet(data, apid=APIDS[a], seqflags=FLAGS[f], seqcount=counts[a], shflag=1 if k else 0)
+        if vary:
+            hb = {"shflag": (i + 1) % 2, "type_": (i // 2) % 2, "version": (i * 3) % 8}
+        else:
+            hb = {"shflag": 1 if k else 0}
+        p = framing.mk_packet(data, apid=APIDS[a], seqflags=FLAGS[f], seqcount=counts[a], **hb)
         pkts.append(p)
         meta.append((f, a, counts[a], tag))
     return b"".join(pkts), pkts, meta
@@ -80,8 +85,8 @@ def tags_of(raw: bytes, k):
     return [raw[i] for i in range(6 + k, len(raw) - 1, 2) if raw[i] ^ raw[i + 1] == 0xFF]
 
 
-def check_history(t: Tally, defn, hist, base, k, states):
-    stream, pkts, meta = build_history(hist, base, k)
+def check_history(t: Tally, defn, hist, base, k, states, vary=False):
+    stream, pkts, meta = build_history(hist, base, k, vary)
     want = model(pkts, meta, k, states)
     got, nwarn = run_impl(defn, stream, k)
     t.evals += 1
@@ -108,7 +113,7 @@ def check_history(t: Tally, defn, hist, base, k, states):
         after_last = any(meta[i][0] == "L" and any(m[1] == meta[i][1] and m[0] in "CL" for m in meta[i + 1:]) for i in range(len(meta)))
         t.violation({"kind": "reassembly", "observed": okind, "stale_group_reuse": bool(after_last and okind == "mismatch"),
                      "secondary_header_bytes": k},
-                    {"history": [list(SYMS[s]) for s in hist], "hist_idx": list(hist), "base": base, "k": k},
+                    {"history": [list(SYMS[s]) for s in hist], "hist_idx": list(hist), "base": base, "k": k, "vary_header_bits": vary},
                     expected=[w.hex() for w in want],
                     observed=[g.hex() for g in got] if not isinstance(got, tuple) else list(got), note=why)
 
@@ -126,6 +131,8 @@ def _task(task):
                     for base in task["bases"]:
                         for k in task["ks"]:
                             check_history(t, defn, hist, base, k, states)
+                    if n <= task.get("vary_upto", 4):
+                        check_history(t, defn, hist, task["bases"][-1], 0, states, vary=True)
                     t.nontrivial += any(SYMS[s][0] in "FCL" for s in hist)
     except BaseException as e:  # noqa: BLE001
         t.violation({"kind": "sweep-aborted", "exc": type(e).__name__}, {"length": n, "firsts": task["firsts"]}, observed=repr(e)[:200])
@@ -162,7 +169,7 @@ def run(ctx):
         "exhaustive": True,
         "bound": (f"EVERY history of length <= {max_len} over 16 symbols ({{F,C,L,U}} x 2 APIDs x sequence step {{+1,+2}})"
                   + ("" if ctx.quick else " (length 5, 6 halved by APID symmetry; length 6 with base 16382 and no secondary header)")
-                  + "; base sequence counts {0, 16382} (wrap-around inside the history); secondary_header_bytes {0,1,3} on the shorter histories; "
+                  + "; histories of length <= 4 also with version/type/secondary-header-flag bits that differ from packet to packet; base sequence counts {0, 16382} (wrap-around inside the history); secondary_header_bytes {0,1,3} on the shorter histories; "
                   "every history runs in a fresh generator but all of them on ONE definition object per worker, so group state that outlives a generator "
                   "(or is shared between generators) makes later histories disagree with the model"),
         "rule": ("one evaluation = one history replayed on a fresh generator and on the model; distinct non-trivial = distinct histories containing at "
@@ -175,7 +182,7 @@ def run(ctx):
 
 def replay(case):
     t = Tally()
-    check_history(t, header_only_definition(), tuple(case["hist_idx"]), case["base"], case["k"], None)
+    check_history(t, header_only_definition(), tuple(case["hist_idx"]), case["base"], case["k"], None, vary=case.get("vary_header_bits", False))
     return t.violations[0] if t.violations else None
 
 
